@@ -16,7 +16,12 @@ Mirrors (line by line, as the code stands):
 * `dic/build/index.rs`, `dic/build/mod.rs: write_index`, `dic/build/primitives.rs: write_u32_array`
   — `IndexBuilder::add` (insertion-ordered grouping), `build_word_id_table` (records, offsets),
   `build_trie` up to the call of the external builder, `should_index` (`left_id >= 0`);
-* `analysis/mlist.rs: MorphemeList::lookup` — filter `entry.end == query.len()`.
+* `analysis/mlist.rs: MorphemeList::lookup` — filter `entry.end == query.len()`; `mlLookup`: the call on a
+  (recycled) list: length guard of `start_build`, `ch_idx(query.len())`, one node per entry APPENDED to
+  the nodes the list already holds (`mlClear` = `MorphemeList::clear`);
+* `dic/build/lexicon.rs: parse_record` (surface test: not empty, no U+0000), `build_trie` (empty key set =
+  `Err`), `write_index` (the bytes written: unit count, units, table size, table) — `compileIndex`,
+  `indexBytes`.
 
 Outcomes: `Option`, `none` = the Rust code panics (debug assertion) or reads outside the buffer
 (undefined behaviour in release builds) resp. returns `Err` for the parsers/builders.  Bytes and
@@ -275,6 +280,79 @@ def buildTable (es : List Entry) : Option (List Nat × List (List Nat × Nat)) :
   | none => none
   | some g => tableFrom 0 g
 
+/-! ## build/lexicon.rs `parse_record` (surface test), `build_trie` (empty key set), `write_index` (bytes) -/
+
+/-- `lexicon.rs: parse_record`: `if surface.is_empty() || surface.contains('\0') { return Err(EmptySurface) }`
+— tested on every row, indexed or not (U+0000 is the only scalar whose UTF-8 form contains byte 0);
+`parse.rs: unescape_cow → check_str_len`: a field of more than `MAX_DIC_STRING_LEN = 32767` bytes is
+`InvalidSize` (tested on the escaped field; unescaping only shortens), which makes the later test
+of `write_word_info` (`u16w.write_len(w, self.surface.len())`) unreachable -/
+def surfaceOk (e : Entry) : Bool :=
+  !e.key.isEmpty && e.key.all (fun b => b != 0) && decide (e.key.length ≤ 32767)
+
+/-- From the source rows to what `write_index` hands to the external double-array builder, and the
+word-id table: the reader's surface test on every row, `buildTable`, then `build_trie`'s
+`if trie_entries.is_empty() { return Err(TrieBuildFailure) }`.  `none` = `Err`. -/
+def compileIndex (es : List Entry) : Option (List Nat × List (List Nat × Nat)) :=
+  if es.all surfaceOk then
+    match buildTable es with
+    | none => none
+    | some (t, ents) => if ents.isEmpty then none else some (t, ents)
+  else none
+
+/-- the bytes `write_index` writes, given the units the external builder returned:
+`(trie.len() / 4) as u32` little-endian, the units, `word_id_table.len() as u32`, the table
+(`le32` truncates like the `as u32` casts do) -/
+def indexBytes (units tbl : List Nat) : List Nat :=
+  le32 units.length ++ units.flatMap le32 ++ le32 tbl.length ++ tbl
+
+/-! ## analysis/mlist.rs: `MorphemeList::lookup` on a list that is reused -/
+
+/-- a `ResultNode` as `MorphemeList::lookup` fills it: `Node::new(0, end_chars, ..)`,
+`ResultNode::new(node, 0, 0, query.len(), info)`: character range, byte range, word id -/
+structure RNode where
+  beginC : Nat
+  endC : Nat
+  beginB : Nat
+  endB : Nat
+  wid : Nat
+deriving Repr, DecidableEq
+
+/-- `input_text/buffer/mod.rs: MAX_LENGTH = u16::MAX / 4 * 3` -/
+def MAX_LENGTH : Nat := 49149
+
+/-- `input.ch_idx(query.len())` after `reset(); push_str(query); start_build(); build(grammar)` (no
+input-text plugin runs in `lookup`): the number of characters of the query = its bytes that are
+not UTF-8 continuation bytes (`10xxxxxx`) -/
+def chCount (q : List Nat) : Nat := (q.filter (fun b => b / 64 != 2)).length
+
+inductive MlOut where
+  /-- a look-up panicked / read outside a buffer -/
+  | panic
+  /-- `start_build`: `Err(InputTooLong)`; the node list is not touched -/
+  | tooLong
+  /-- `Ok(count)`; `nodes` = the whole list afterwards -/
+  | ok (count : Nat) (nodes : List RNode)
+deriving Repr, DecidableEq
+
+/-- `MorphemeList::lookup(query, subset)` on a list that holds `nodes`.  `rep` selects the variant
+of the code: `false` = as it stands, the function does NOT clear the list (its callers do:
+`python/src/dictionary.rs: lookup`, `tests/common: entries`) although it replaces the list's input
+text, so nodes that were in the list now point into another text (observation O1 of the report);
+`true` = the candidate repair `self.nodes.mut_data().clear()` as the first statement (so a rejected
+query leaves an empty list: `runQueries`).  The
+harness probes the linked code (`ml=append|replace` on the line). -/
+def mlLookup (g : Bool) (rep : Bool) (ls : List Lex) (nodes : List RNode) (q : List Nat) : MlOut :=
+  if q.length > MAX_LENGTH then .tooLong else
+  match exactLookup g ls q with
+  | none => .panic
+  | some r =>
+    let new := r.map (fun we => ({ beginC := 0, endC := chCount q, beginB := 0, endB := q.length, wid := we.1 } : RNode))
+    .ok new.length ((if rep then [] else nodes) ++ new)
+
+/-- `MorphemeList::clear` -/
+def mlClear (_nodes : List RNode) : List RNode := []
+
 /-! ## the checker for the external builder's output -/
 
 /-- keys that continue with byte `b`, with that byte removed (Brzozowski derivative of the key set) -/
@@ -386,16 +464,20 @@ structure Loaded where
   lex : Lex
   tblOk : Bool
   chk : Bool
+  /-- the bytes of the lexicon up to the end of the word-id table are exactly what the model of
+  `write_index` writes for the source rows and the units of the external builder -/
+  wrOk : Bool
 
 /-- one lexicon of a world: compiled bytes (from the lexicon start to the end of the word-id
 table) + source rows -/
 def loadOne (bytes : List Char) (src : List Char) : Option Loaded :=
   match hexToArray bytes, parseEntries src with
   | some buf, some es =>
-    match parseLex buf 0, buildTable es with
+    match parseLex buf 0, compileIndex es with
     | some lx, some (tbl, ents) =>
       let actual := (buf.extract lx.tblOff (lx.tblOff + lx.tblSize)).toList
-      some { lex := lx, tblOk := actual == tbl && buf.size == lx.tblOff + lx.tblSize, chk := checkTrie lx.trie ents }
+      some { lex := lx, tblOk := actual == tbl && buf.size == lx.tblOff + lx.tblSize, chk := checkTrie lx.trie ents,
+             wrOk := indexBytes lx.trie.toList tbl == buf.toList }
     | _, _ => none
   | _, _ => none
 
@@ -405,11 +487,49 @@ def loadAll (toks : List (List Char)) (n : Nat) : Option (List Loaded) :=
     | some b, some s => loadOne b s
     | _, _ => none))
 
-/-- `C04 world idx= n=<k> l0=<hex> s0=<key:left;..> .. texts=<hex;hex..> exact=<hex;hex..>` -/
+/-- one exact query: `c:<hex>` = `list.clear(); list.lookup(q)`, `k:<hex>` = `list.lookup(q)` on the
+list as the previous query left it -/
+def parseQuery (s : List Char) : Option (Bool × List Nat) :=
+  match s with
+  | m :: ':' :: h =>
+    match hexToArray h with
+    | some b => if m = 'c' then some (true, b.toList) else if m = 'k' then some (false, b.toList) else none
+    | none => none
+  | _ => none
+
+def showNode (n : RNode) : String :=
+  toString n.beginC ++ ":" ++ toString n.endC ++ ":" ++ toString n.beginB ++ ":" ++ toString n.endB
+
+/-- `<count>/<word ids of the whole list>/<ranges of the last count nodes>` -/
+def showMl : MlOut → String
+  | .panic => "P"
+  | .tooLong => "ETooLong"
+  | .ok n nodes =>
+    toString n ++ "/" ++ Wire.joinWith "," (nodes.map (fun x => toString x.wid)) ++ "/" ++
+      Wire.joinWith "," ((nodes.drop (nodes.length - n)).map showNode)
+
+/-- the exact queries of a world in order, on ONE node list -/
+def runQueries (g rep : Bool) (set : List Lex) : List RNode → List (Bool × List Nat) → List String
+  | _, [] => []
+  | nodes, (clr, q) :: rest =>
+    let nodes0 := if clr then mlClear nodes else nodes
+    let r := mlLookup g rep set nodes0 q
+    let nodes1 := match r with
+      | .ok _ ns => ns
+      | _ => if rep then [] else nodes0
+    showMl r :: runQueries g rep set nodes1 rest
+
+/-- `ml=replace` on the line: the linked `MorphemeList::lookup` clears the list itself -/
+def mlRepOf (toks : List (List Char)) : Bool :=
+  match Wire.kv? toks "ml" with
+  | some v => String.ofList v == "replace"
+  | none => false
+
+/-- `C04 world idx= n=<k> l0=<hex> s0=<key:left;..> .. texts=<hex;hex..> exact=<c|k:hex;..>` -/
 def handleWorld (toks : List (List Char)) : String :=
   match (Wire.kv? toks "n").bind Wire.nat?, Wire.kv? toks "texts", Wire.kv? toks "exact" with
   | some n, some ts, some xs =>
-    match loadAll toks n, allSomeTR ((itemsTR ';' ts).map hexToArray), allSomeTR ((itemsTR ';' xs).map hexToArray) with
+    match loadAll toks n, allSomeTR ((itemsTR ';' ts).map hexToArray), allSomeTR ((itemsTR ';' xs).map parseQuery) with
     | some lds, some texts, some queries =>
       match mkSet (lds.map (·.lex)) with
       | none => "err:set"
@@ -420,8 +540,9 @@ def handleWorld (toks : List (List Char)) : String :=
         let look := Wire.joinWith "|" (texts.map (fun t =>
           let tl := t.toList
           showAllOffsets (fun off => setLookup (guardOf toks) set tl off) tl.length))
-        let ex := Wire.joinWith "|" (queries.map (fun q => showRes (exactLookup (guardOf toks) set q.toList)))
-        "ok sizes=" ++ sizes ++ " tbl=" ++ tb ++ " chk=" ++ ck ++ " look=" ++ look ++ " exact=" ++ ex
+        let wr := Wire.joinWith "," (lds.map (fun l => b2s l.wrOk))
+        let ex := Wire.joinWith "|" (runQueries (guardOf toks) (mlRepOf toks) set [] queries)
+        "ok sizes=" ++ sizes ++ " tbl=" ++ tb ++ " chk=" ++ ck ++ " wr=" ++ wr ++ " look=" ++ look ++ " exact=" ++ ex
     | _, _, _ => "bad-op"
   | _, _, _ => "bad-op"
 
@@ -429,7 +550,7 @@ def handleWorld (toks : List (List Char)) : String :=
 def handleBuild (toks : List (List Char)) : String :=
   match (Wire.kv? toks "src").bind parseEntries with
   | some es =>
-    match buildTable es with
+    match compileIndex es with
     | none => "err"
     | some (t, ents) => "ok tbl=" ++ toString t.length ++ " keys=" ++ toString ents.length
   | none => "bad-op"
